@@ -34,6 +34,7 @@ def run(rep, tier):
         common.guarded(rep, "C04.4", c04.c04_4, rep, ix, sites)
         common.guarded(rep, "C04.8", c04.c04_8, rep, ix, sites)
     common.guarded(rep, "C04.7", c04.c04_7, rep, ix)
+    common.guarded(rep, "C04.9", c04.c04_9, rep, ix)       # values reach the instantiated program as they were passed
     # whether the included program is a template is decided from its reported parameters: the p-type filter drops exactly p<digits> names
     from . import c15
     common.guarded(rep, "C15.1", c15.c15_1, rep, ix, True)
@@ -160,6 +161,8 @@ def c07_1(rep, ix):
     rep.check(okp, R, ix.site(pr), "parse(data, listener, cwd) constructs the listener with that cwd", key="parse|cwd")
     # no chdir / getcwd elsewhere
     for q, g in ix.funcs.items():
+        if q in getattr(ix, "absorbed", ()):
+            continue            # a private helper read into its callers: judged where it runs
         for n in ast.walk(g.node):
             if isinstance(n, ast.Call) and u(n.func) in ("os.chdir", "chdir", "os.fchdir"):
                 rep.bad(R, ix.site(g, n), "the package never changes the process working directory", u(n), key=q + "|chdir")
